@@ -896,7 +896,10 @@ impl ActTask for Arc<Task> {
                 NodeContent::Step(step) => step.run(ctx),
                 NodeContent::Act(act) => act.run(ctx),
             }?;
-            ctx.emit_task(&ctx.task())?;
+            // a task that already ended in `run` (a workflow without steps) is emitted once, by `next`
+            if !ctx.task().state().is_completed() {
+                ctx.emit_task(&ctx.task())?;
+            }
         }
 
         Ok(())
